@@ -85,6 +85,8 @@ def check(ctx: Ctx) -> None:
                               f.path, line, operand=a)
     from ..idioms import check_none_tests
     check_none_tests(ctx, 'C16.f', [FUND], floor=1)            # cheap definite rule first
+    from ..idioms import check_no_whole_array_regimes
+    check_no_whole_array_regimes(ctx, 'C16.h', [FUND, 'pyphysim/util/misc.py', 'pyphysim/util/conversion.py'], floor=60)
     from ..idioms import check_shared_memos
     check_shared_memos(ctx, 'C16.g', [FUND], floor=4)
     ctx.rule('C16.a', 'PER/SE/BER/SER compositions equal the specification terms', floor=12)
